@@ -193,7 +193,7 @@ func lockSpanMachine(c *Ctx, m *cmdModel, obl *oblSet, fn *ssa.Function, lockCal
 			return s
 		},
 		Edge: func(pc *PathCtx, s uint64, from *ssa.BasicBlock, si int) (uint64, bool) {
-			for _, f := range edgeFacts(from, si) {
+			for _, f := range pc.edgeFacts(from, si) {
 				// Lock's own error != nil: nothing is held
 				if e, ok := f.X.(*ssa.Extract); ok && e.Tuple == ssa.Value(lockCall) && e.Index == 1 && isNilConst(f.Y) && !f.Eq {
 					return s &^ lkHELD, true
